@@ -65,7 +65,10 @@ def plain(node):
     tsc = snapshot.typed_scalar(node)
     if tsc[0] in ("str", "int", "float", "bool", "null"):
         return tsc[1]
-    return str(node)
+    if tsc[0] == "tagged":
+        # JSON has no tags: the value underneath is what can be shown
+        return plain(node.value)
+    return repr(node)
 
 
 def plain_key(key):
@@ -1060,6 +1063,9 @@ def gen_set16(rng):
         segs, _n = rng.choice(scalars)
         path = gen_docs.render_path(segs, sep)
         saveto = rng.choice(["saved", "/old/value"])
+    elif oper in ("aliasof", "aliasof-new", "tag", "tag-only",
+                  "file-value", "stdin-value"):
+        pass        # path and operands were chosen above
     else:
         path = rng.choice(["/no/such/node", "nosuch.key"])
         must = True
